@@ -48,6 +48,7 @@ type Term struct {
 type Clause struct {
 	S, P, O  Term
 	Optional bool
+	Tag      string // free for the checks (not rendered)
 }
 
 // Proj is one projection of the SELECT list.
